@@ -51,19 +51,25 @@ def cpcW (da1First : Bool) : CPc → Nat
   | .postQuit => 7 + da1W
   | .checkFlag => 8 + da1W
 
-def ipcW (b : Bool) : IPc → Nat
+def ipcW : IPc → Nat
   | .done => 0
   | .select => 1
   | .posting k => 2 * k + 2
-  | .closing c => cpcW b c + 1
 
 def callersW (b : Bool) : List Caller → Nat
   | [] => 0
   | c :: r => cpcW b c.pc + callersW b r
 
-def mu (s : SSys) : Nat :=
-  s.queueLen + inbufW s.inbuf + seqsW s.seqs + ppcW s.ppc + ipcW s.da1First s.ipc + callersW s.da1First s.callers +
-    da1W * s.da1Pending + (if s.killSig then cpcW s.da1First .checkFlag + 1 else 0)
+def oldsW : List Old → Nat
+  | [] => 0
+  | o :: r => ipcW o.ipc + seqsW o.seqs + oldsW r
+
+/-- everything but the input goroutines and their channels -/
+def muR (s : SSys) : Nat :=
+  s.queueLen + inbufW s.inbuf + ppcW s.ppc + callersW s.da1First s.callers + da1W * s.da1Pending +
+    (if s.killSig then cpcW s.da1First .checkFlag + 1 else 0) + (if s.winchSig then 5 else 0)
+
+def mu (s : SSys) : Nat := muR s + ipcW s.ipc + seqsW s.seqs + oldsW s.olds
 
 theorem inbufW_append (a b : List (Option Nat)) : inbufW (a ++ b) = inbufW a + inbufW b := by
   induction a with
@@ -74,6 +80,16 @@ theorem seqsW_append (a b : List Tok) : seqsW (a ++ b) = seqsW a + seqsW b := by
   induction a with
   | nil => simp [seqsW]
   | cons u r ih => simp [seqsW, ih]; omega
+
+theorem callersW_append (b : Bool) (x y : List Caller) : callersW b (x ++ y) = callersW b x + callersW b y := by
+  induction x with
+  | nil => simp [callersW]
+  | cons u r ih => simp [callersW, ih]; omega
+
+theorem oldsW_append (x y : List Old) : oldsW (x ++ y) = oldsW x + oldsW y := by
+  induction x with
+  | nil => simp [oldsW]
+  | cons u r ih => simp [oldsW, ih]; omega
 
 theorem callersW_set (b : Bool) : ∀ (l : List Caller) (j : Nat) (c c' : Caller), l[j]? = some c →
     callersW b (l.set j c') + cpcW b c.pc = callersW b l + cpcW b c'.pc
@@ -86,11 +102,22 @@ theorem callersW_set (b : Bool) : ∀ (l : List Caller) (j : Nat) (c c' : Caller
       have := callersW_set b r j c c' h
       simp [callersW]; omega
 
+theorem oldsW_set : ∀ (l : List Old) (j : Nat) (o o' : Old), l[j]? = some o →
+    oldsW (l.set j o') + (ipcW o.ipc + seqsW o.seqs) = oldsW l + (ipcW o'.ipc + seqsW o'.seqs)
+  | [], j, o, o', h => by simp at h
+  | x :: r, 0, o, o', h => by
+      simp at h; subst h
+      simp [oldsW]; omega
+  | x :: r, j + 1, o, o', h => by
+      simp at h
+      have := oldsW_set r j o o' h
+      simp [oldsW]; omega
+
 /-- One step of `Close`/`Suspend` lowers the caller's rank by more than it adds elsewhere. -/
 theorem closeStep_dec (s s' : SSys) (k : Bool) (c c' : CPc) (h : closeStep s k c = some (s', c')) :
     s'.queueLen + da1W * s'.da1Pending + cpcW s.da1First c' < s.queueLen + da1W * s.da1Pending + cpcW s.da1First c ∧
     s'.inbuf = s.inbuf ∧ s'.seqs = s.seqs ∧ s'.ppc = s.ppc ∧ s'.ipc = s.ipc ∧ s'.callers = s.callers ∧
-    s'.da1First = s.da1First ∧ s'.killSig = s.killSig := by
+    s'.da1First = s.da1First ∧ s'.killSig = s.killSig ∧ s'.winchSig = s.winchSig ∧ s'.olds = s.olds := by
   cases c <;> simp only [closeStep] at h
   · -- checkFlag
     split at h <;> simp at h <;> obtain ⟨rfl, rfl⟩ := h <;> simp [cpcW, da1W]
@@ -119,6 +146,46 @@ theorem closeStep_dec (s s' : SSys) (k : Bool) (c c' : CPc) (h : closeStep s k c
     simp [cpcW]
   · simp at h
 
+/-- One scheduler step of an input goroutine lowers its own rank (program counter and channel) by more
+than it adds elsewhere (an event in the queue; `Close` on this goroutine as a new caller). -/
+theorem iact_dec (s s' : SSys) (v v' : IView) (a : IAct) (ha : a.sched = true) (h : iact s v a = some (s', v')) :
+    muR s' + ipcW v'.ipc + seqsW v'.seqs < muR s + ipcW v.ipc + seqsW v.seqs ∧
+    s'.olds = s.olds ∧ s'.ipc = s.ipc ∧ s'.seqs = s.seqs := by
+  obtain ⟨ipc, seqs, closed⟩ := v
+  cases a <;> simp only [iact] at h <;> simp [IAct.sched] at ha
+  · -- recv
+    split at h
+    · simp at h; obtain ⟨rfl, rfl⟩ := h; simp [ipcW, seqsW, tokW]; omega
+    · simp at h; obtain ⟨rfl, rfl⟩ := h; simp [ipcW, seqsW, tokW]; omega
+    · split at h <;> simp at h
+      obtain ⟨rfl, rfl⟩ := h; simp [ipcW, seqsW]
+    · simp at h
+  · -- kill
+    split at h
+    · split at h <;> simp at h
+      rename_i hk
+      obtain ⟨rfl, rfl⟩ := h
+      simp [muR, ipcW, hk, callersW_append, callersW, closeCaller]; omega
+    · simp at h
+  · -- winch
+    split at h
+    · split at h <;> simp at h
+      rename_i hk
+      obtain ⟨rfl, rfl⟩ := h
+      simp [muR, ipcW, hk]
+    · simp at h
+  · -- step
+    split at h
+    · simp at h; obtain ⟨rfl, rfl⟩ := h; simp [ipcW]
+    · split at h <;> simp at h
+      obtain ⟨rfl, rfl⟩ := h; simp [muR, ipcW]; omega
+    · simp at h
+  · -- quit
+    split at h
+    · split at h <;> simp at h
+      obtain ⟨rfl, rfl⟩ := h; simp [ipcW]
+    · simp at h
+
 /-- **The variant.** Every label a scheduler may pick strictly lowers `mu`, in every state. -/
 theorem mu_decreases (s s' : SSys) (l : SLabel) (hl : l.sched = true) (h : snext s l = some s') : mu s' < mu s := by
   cases l <;> simp [SLabel.sched] at hl
@@ -126,71 +193,59 @@ theorem mu_decreases (s s' : SSys) (l : SLabel) (hl : l.sched = true) (h : snext
     simp only [snext] at h
     split at h
     · simp at h; subst h
-      simp only [mu, inbufW_append, inbufW, unitW, da1W]
+      simp only [mu, muR, inbufW_append, inbufW, unitW, da1W]
       omega
     · simp at h
   · -- parser
     simp only [snext] at h
     split at h
-    · split at h <;> simp at h <;> subst h <;> simp_all [mu, ppcW]
+    · split at h <;> simp at h <;> subst h <;> simp_all [mu, muR, ppcW]
     · rename_i hp
       split at h
       · simp at h
-      · rename_i r hb; simp at h; subst h; simp [mu, ppcW, hp, hb, inbufW, unitW]; omega
-      · rename_i k r hb; simp at h; subst h; simp [mu, ppcW, hp, hb, inbufW, unitW]; omega
+      · rename_i r hb; simp at h; subst h; simp [mu, muR, ppcW, hp, hb, inbufW, unitW]; omega
+      · rename_i k r hb; simp at h; subst h; simp [mu, muR, ppcW, hp, hb, inbufW, unitW]; omega
     · rename_i k hp
       split at h
-      · simp at h; subst h; simp [mu, ppcW, hp, seqsW_append, seqsW, tokW]; omega
+      · simp at h; subst h; simp [mu, muR, ppcW, hp, seqsW_append, seqsW, tokW]; omega
       · simp at h
     · rename_i hp
       split at h
-      · simp at h; subst h; simp [mu, ppcW, hp, seqsW_append, seqsW, tokW]; omega
+      · simp at h; subst h; simp [mu, muR, ppcW, hp, seqsW_append, seqsW, tokW]; omega
       · simp at h
     · rename_i hp
       split at h
-      · simp at h; subst h; simp [mu, ppcW, hp]
+      · simp at h; subst h; simp [mu, muR, ppcW, hp]
       · simp at h
     · simp at h
-  · -- inputRecv
+  · -- input a
+    rename_i a
     simp only [snext] at h
     split at h
-    · rename_i k r hi hs; simp at h; subst h; simp [mu, hi, hs, ipcW, seqsW, tokW]; omega
-    · rename_i r hi hs; simp at h; subst h; simp [mu, hi, hs, ipcW, seqsW, tokW]; omega
+    · rename_i s1 v hi
+      obtain ⟨h1, h2, h3, h4⟩ := iact_dec s s1 _ v a hl hi
+      simp at h; subst h
+      simp only [mu, muR, h2] at h1 ⊢
+      omega
     · simp at h
-  · -- inputKill
+  · -- old j a
+    rename_i j a
     simp only [snext] at h
     split at h
-    · rename_i hi
-      split at h
-      · rename_i hk; simp at h; subst h; simp [mu, hi, hk, ipcW]; omega
-      · simp at h
     · simp at h
-  · -- inputStep
-    simp only [snext] at h
-    split at h
-    · rename_i hi; simp at h; subst h; simp [mu, hi, ipcW]
-    · rename_i k hi
+    · rename_i o hj
       split at h
-      · simp at h; subst h; simp [mu, hi, ipcW]; omega
-      · simp at h
-    · rename_i c hi
-      split at h
-      · rename_i s1 hc
-        obtain ⟨h1, h2, h3, h4, h5, h6, h7, h8⟩ := closeStep_dec s s1 true c .returned hc
+      · rename_i s1 v hi
+        obtain ⟨h1, h2, h3, h4⟩ := iact_dec s s1 _ v a hl hi
         simp at h; subst h
-        simp only [mu, h2, h3, h4, h6, h7, h8, hi, ipcW, cpcW] at h1 ⊢
-        omega
-      · rename_i s1 c' hne hc
-        obtain ⟨h1, h2, h3, h4, h5, h6, h7, h8⟩ := closeStep_dec s s1 true c c' hc
-        simp at h; subst h
-        simp only [mu, h2, h3, h4, h6, h7, h8, hi, ipcW] at h1 ⊢
+        have hset := oldsW_set s.olds j o ⟨v.ipc, v.seqs⟩ hj
+        simp only [mu, muR, h2, h3, h4] at h1 hset ⊢
         omega
       · simp at h
-    · simp at h
   · -- consume
     simp only [snext] at h
     split at h
-    · rename_i hc; simp at h; subst h; simp at hc; simp [mu]; omega
+    · rename_i hc; simp at h; subst h; simp at hc; simp [mu, muR]; omega
     · simp at h
   · -- caller j
     rename_i j
@@ -200,10 +255,22 @@ theorem mu_decreases (s s' : SSys) (l : SLabel) (hl : l.sched = true) (h : snext
     · rename_i c hj
       split at h
       · rename_i s1 c' hc
-        obtain ⟨h1, h2, h3, h4, h5, h6, h7, h8⟩ := closeStep_dec s s1 c.inClose c.pc c' hc
+        obtain ⟨h1, h2, h3, h4, h5, h6, h7, h8, h9, h10⟩ := closeStep_dec s s1 c.inClose c.pc c' hc
         simp at h; subst h
         have hset := callersW_set s.da1First s.callers j c { c with pc := c' } hj
-        simp only [mu, h2, h3, h4, h5, h6, h7, h8] at h1 hset ⊢
+        simp only [mu, muR, h2, h3, h4, h5, h6, h7, h8, h9, h10] at h1 hset ⊢
+        omega
+      · simp at h
+  · -- drain j
+    rename_i j
+    simp only [snext] at h
+    split at h
+    · simp at h
+    · split at h
+      · rename_i t r hpc hs
+        simp at h; subst h
+        have : 1 ≤ tokW t := by cases t <;> simp [tokW]
+        simp only [mu, muR, hs, seqsW]
         omega
       · simp at h
 
@@ -252,7 +319,7 @@ theorem run_bounded_with_input : ∀ (ls : List SLabel) (s s' : SSys),
           simp only [schedCount, hs, if_true, hc]; omega
         · simp only [snext, Option.some.injEq] at hn; subst hn
           have hm : mu { s with inbuf := s.inbuf ++ [u] } = mu s + unitW u := by
-            simp only [mu, inbufW_append, inbufW]; omega
+            simp only [mu, muR, inbufW_append, inbufW]; omega
           simp only [schedCount, SLabel.sched, inputCost] at ih ⊢
           rw [hm] at ih
           simp; omega
